@@ -8,7 +8,7 @@ from __future__ import annotations
 
 import numpy as np
 
-from harness.common import Violation, bl, listl, optl, ql, run_main, setup_jax, zl
+from harness.common import Violation, bl, listl, optl, ql, release_jit, run_main, setup_jax, zl
 
 jax = setup_jax(x64=True)
 import jax.numpy as jnp  # noqa: E402
@@ -267,6 +267,7 @@ def body(ck):
     for i in range(n):
         lit, j = component_case(ck, ck.rng, i)
         cases.append(lit); cj.append(j)
+        release_jit(i, 100)
     ck.current_case = None
     ck.log(f"{len(cases)} component cases")
     res = ck.run_coq_cases("C13Check", cases, shard=30, preamble="From Lerax Require Import Env Tab.\nImport C13Check.")
